@@ -25,7 +25,8 @@ OTHERS = [
     [{"transport": "obfs4", "valid": True}],
     [{"transport": "min", "valid": False}, {"transport": "prefix", "prefix_id": 0, "valid": False}],
     [{"transport": "min", "valid": True}, {"transport": "obfs4", "valid": True}, {"transport": "prefix", "prefix_id": 0, "valid": True},
-     {"transport": "prefix", "prefix_id": 4, "valid": True}, {"transport": "obfs4", "valid": False}, {"transport": "min", "valid": True}],
+     {"transport": "prefix", "prefix_id": 4, "valid": True}, {"transport": "obfs4", "valid": False}, {"transport": "min", "valid": True},
+     {"transport": "prefix", "prefix_id": 2, "valid": True, "no_params": True}],
 ]
 
 
@@ -131,8 +132,23 @@ def gen_cases(ctx, table):
         c.update(kw)
         cases.append(c)
 
-    for c in (ctx.replay or {}).get("cases", []):
-        cases.append(c)
+    if ctx.replay:
+        # --replay: exactly the recorded failing connections (same parameters, cuts and sizes; the
+        # client secret and hence the flight bytes are fresh, as on every run)
+        for f in ctx.replay.get("failures", []):
+            c = f.get("case") or {}
+            if "transport" in c:
+                c = {k: v for k, v in c.items() if k not in ("observed", "sent_len")}
+                c.setdefault("kind", "replay")
+                cases.append(c)
+        for b in ctx.replay.get("theorem_or_correspondence", []) + ctx.replay.get("broken", []):
+            c = (b.get("case") or {}).get("case") or {}
+            if "transport" in c:
+                c = dict(c)
+                c["kind"] = "replay"
+                cases.append(c)
+        if cases:
+            return cases
     # the client's own segmentation: every prefix id x flush policy x port mode, with and without early data
     for tr, pid in sets:
         for flush in ((0, 1, 2) if tr == "prefix" else (0,)):
@@ -172,6 +188,22 @@ def gen_cases(ctx, table):
             k = rng.randrange(0, 5)
             cuts = sorted(set(rng.randrange(1, L + max(dl, 1)) for _ in range(k)))
             mk(tr, pid, cuts=cuts, data_len=dl, kind="early")
+    # flights whose last segment fills the handler's 4096-byte read buffer exactly (the tag being
+    # incomplete before that read), and streams that are an exact multiple of it
+    for tr, pid in sets:
+        L = flen[(tr, pid)]
+        mk(tr, pid, cuts=[], data_len=4096 - L, kind="fill")
+        mk(tr, pid, cuts=[], data_len=8192 - L, kind="fill")
+        for c in (1, L // 2, L - 1):
+            mk(tr, pid, cuts=[c], data_len=4096 + c - L, kind="fill")
+        mk(tr, pid, cuts=[L - 1, L - 1 + 4096], data_len=8192, kind="fill")
+    # one byte per segment through the whole flight, and slowly paced segments (seconds, not milliseconds)
+    for tr, pid in sets:
+        L = flen[(tr, pid)]
+        mk(tr, pid, cuts=list(range(1, L + 4)), data_len=4, kind="bytewise")
+    for tr, pid in (sets if not quick else [("min", 0), ("prefix", 3), ("prefix", 7)]):
+        L = flen[(tr, pid)]
+        mk(tr, pid, cuts=[L // 3, L - 2, L + 1], data_len=6, delay_ms=400, kind="paced")
     # random k-cuts with pauses between segments
     for _ in range(30 if quick else 200):
         tr, pid = rng.choice(sets)
@@ -206,7 +238,7 @@ def oracle(ctx, c, r):
     want_reply = bytes(lcg_bytes(c.get("banner_seed", 1), c.get("banner_len", 0))) + want
     brief = {k: c[k] for k in ("transport", "prefix_id", "flush", "rand_port", "cuts", "natural", "data_len", "data_seed",
                                "late_len", "late_seed", "delay_ms", "banner_len", "banner_seed", "others")}
-    brief["observed"] = {k: r.get(k) for k in ("err", "found", "found_t", "status", "updates", "segs", "reads", "echo_conns", "returned")}
+    brief["observed"] = {k: r.get(k) for k in ("err", "found", "found_t", "status", "updates", "segs", "reads", "echo_conns", "returned", "early_answered")}
     brief["observed"]["echo_len"] = (r.get("echo") or {}).get("len")
     brief["observed"]["reply_len"] = (r.get("reply") or {}).get("len")
     brief["sent_len"] = len(want)
@@ -229,6 +261,10 @@ def oracle(ctx, c, r):
     elif not same(r.get("reply"), want_reply):
         ctx.fail(base + ":reply-not-intact", "the covert's reply did not reach the client intact (%s of %d bytes)"
                  % ((r.get("reply") or {}).get("len"), len(want_reply)), brief)
+        bad = True
+    if not bad and not r.get("early_answered", True):
+        ctx.fail(base + ":early-data-stalled", "the covert's answer to the client's early data (or its banner) only arrived after the client "
+                 "sent more: bytes that came with the flight were not relayed until then (segments %s)" % r.get("segs"), brief)
         bad = True
     if r.get("status") != 1 or r.get("updates", 0) < 1:
         ctx.fail(base + ":not-marked-used", "registration not marked as used after its connection (status %s, updates %s)"
@@ -295,9 +331,11 @@ def run(ctx):
         "obfs4 library (handshake, framing) and X25519/Elligator/AES-CTR/HMAC are assumed, exercised for real by the tie",
     ]
     ctx.cov["rule"] = ("every enabled wrapping transport and prefix id; the client's own write boundaries for every flush policy and port mode; "
-                       "every 1-cut and (quick: three parameter sets, thorough: all) every 2-cut of flight++early data; early data 0..64 KiB; "
-                       "paced random k-cuts; other registrations on the phantom. Non-trivial = hash-distinct (parameters, cuts, sizes) that ran "
-                       "through the real read loop and relay")
+                       "every 1-cut of flight+8 bytes and of the bare flight with a banner-first covert; every 2-cut (quick: min exhaustively, two prefix "
+                       "sets around their boundaries + sample; thorough: all eleven sets exhaustively); early data 0..64 KiB; paced random k-cuts; obfs4 "
+                       "handshakes cut at both ends; other registrations on the phantom. The oracle judges every connection; the model is evaluated by "
+                       "coqc on every connection in the thorough tier and on a boundary-biased subset in the quick tier. Non-trivial = hash-distinct "
+                       "(parameters, segment sizes, early-data size, registry) connection that was recognised by the real read loop and relayed")
     t0 = time.time()
 
     def lap(what):
@@ -365,11 +403,11 @@ def run(ctx):
         ctx.sample({"case": {k: cases[i][k] for k in ("transport", "prefix_id", "cuts", "data_len", "natural", "kind")},
                     "observed": {k: r.get(k) for k in ("found_t", "segs", "reads", "status", "updates")}})
     kinds = ["min/natural/ok", "min/1cut/ok", "min/1cut-banner/ok", "prefix/1cut-banner/ok", "min/2cut/ok", "prefix/natural/ok", "prefix/1cut/ok", "prefix/2cut/ok",
-             "prefix/early/ok", "prefix/paced/ok", "obfs4/obfs4/ok"]
-    if not ctx.known and not os.environ.get("VERIF_C04_ONLY"):
+             "prefix/early/ok", "prefix/paced/ok", "obfs4/obfs4/ok", "min/fill/ok", "prefix/fill/ok", "min/bytewise/ok", "prefix/bytewise/ok", "min/paced/ok"]
+    if not ctx.known and not os.environ.get("VERIF_C04_ONLY") and not ctx.replay:
         ctx.require_kinds(kinds)
     lap("oracle + emit")
-    mm = coq_mismatches_retry(ctx, "conn", header(table), terms, "chk'", max(150, len(terms) // 16 + 1), ["C04/Run.vo"])
+    mm = coq_mismatches_retry(ctx, "conn", header(table), terms, "chk'", max(40, len(terms) // 16 + 1), ["C04/Run.vo"])
     lap("coq evaluation of %d cases" % len(terms))
     if mm:
         ctx.cov["mismatches"] += len(mm)
